@@ -19,12 +19,9 @@ const (
 // For DNSSEC-signed responses, it also considers RRSIG expiration times.
 func CalculateCacheTTL(msg *dns.Msg, respType ResponseType) time.Duration {
 	// Only cache successful responses and negative responses (NXDOMAIN/NODATA)
-	isNegative := false
 	switch respType {
-	case TypeSuccess:
+	case TypeSuccess, TypeNXDomain, TypeNoRecords:
 		// Continue with TTL calculation
-	case TypeNXDomain, TypeNoRecords:
-		isNegative = true
 	case TypeServerFailure:
 		// SERVFAIL responses should be cached for a reasonable time to avoid
 		// hammering broken servers, but not too long in case it's temporary
@@ -65,11 +62,14 @@ func CalculateCacheTTL(msg *dns.Msg, respType ResponseType) time.Duration {
 		if ttl := getTTL(rr); ttl < minTTL {
 			minTTL = ttl
 		}
-		if isNegative {
-			if soa, ok := rr.(*dns.SOA); ok {
-				if ttl := time.Duration(soa.Minttl) * time.Second; ttl < minTTL {
-					minTTL = ttl
-				}
+		// An SOA in the authority section is a denial's, whatever the
+		// message as a whole is classified as: an alias answer merged with
+		// its target's NODATA or NXDOMAIN proof has an answer section and
+		// counts as a success, yet the denial it carries may not be served
+		// past the negative TTL either.
+		if soa, ok := rr.(*dns.SOA); ok {
+			if ttl := time.Duration(soa.Minttl) * time.Second; ttl < minTTL {
+				minTTL = ttl
 			}
 		}
 		// Check RRSIG expiration
